@@ -94,6 +94,13 @@ func c03Names(b *c03Box) (hostile []c03Name, control []string) {
 	add("cleans-to-valid", "alice.user/../bob", "bob")
 	add("cleans-to-valid", "./root", "root")
 	add("deep-dotdot", "../../"+filepath.Base(b.root)+"/sibling/victim", "victim")
+	add("alnum-start-then-path", "x/../../sibling/victim", "victim")
+	add("alnum-start-then-path", "alice/../../sibling/boss", "boss")
+	add("alnum-start-then-path", "a/../../decoys/decoy", "decoy")
+	add("alnum-start-then-path", "sub/eve", "alice")
+	add("alnum-start-then-path", "alice/../bob", "bob")
+	add("alnum-start-then-path", "0/../../top", "top")
+	add("alnum-start-then-path", "a/"+b.sibling+"/victim", "victim")
 	add("empty", "", "alice")
 	add("dot", ".", "alice")
 	add("dotdot", "..", "alice")
